@@ -54,5 +54,5 @@ def oracle(H):
     return v
 
 
-SWEEP = (10, 150)
+SWEEP = (4, 150)
 install(globals(), ID, 4000, 50000)
